@@ -400,6 +400,22 @@ func (fr *Frame) libModel(callee *ssa.Function, args []Val, rt types.Type, pos t
 		fr.cur.heap = vc.heapSet(fr.cur.heap, "E_uint8", vc.define("E_uint8", vc.famSort["E_uint8"], "(store "+cur+" "+b.L[0]+" "+inner+")"))
 		return Val{Typ: rt}, true
 	}
+	if k == "reflect.ValueOf" && len(args) == 1 && len(args[0].L) == 2 {
+		// the reflect.Value of an interface value remembers the object behind it: IsNil (below)
+		// is "that object is the nil pointer"
+		res := vc.freshVal("reflect.value", rt)
+		var srt []string
+		for i := range res.L {
+			srt = append(srt, vc.sortOf(res, i))
+		}
+		f := vc.declFun("reflect_payload", srt, "Int")
+		vc.assume(fr.curR, "(= ("+f+" "+joinSp(res.L)+") "+args[0].L[1]+")")
+		vc.note("reflect.ValueOf / Value.IsNil modelled: IsNil of an interface's value is 'its payload is nil'")
+		return res, true
+	}
+	if k == "reflect.(Value).IsNil" && len(args) == 1 && vc.declared[q("reflect_payload")] {
+		return one("(= (|reflect_payload| " + joinSp(args[0].L) + ") 0)")
+	}
 	if k == "taskloop.(*Loop).Run" {
 		// As seen from package ice (DESIGN 3.6): either the task ran exactly once to completion on
 		// the loop (nil returned) or it did not run (non-nil error). Tasks of one loop do not
